@@ -628,6 +628,7 @@ type world struct {
 	ref      map[string]*refKV
 	dir      string
 	n        int
+	flavour  string        // file (default) | memory | shared: see openDB
 	dirty    bool          // a call on the SQLite store did not return, or the file stayed locked: start over on a fresh file
 	watchdog time.Duration // per implementation call
 	j        *hx.Journal
@@ -653,8 +654,17 @@ func (w *world) openDB() error {
 		go old.DB.Close() // may wait for a leaked connection; never block on it
 	}
 	w.n++
-	file := filepath.Join(w.dir, fmt.Sprintf("c05-%d.db", w.n))
-	db, err := sqlx.OpenSqlite3(file + "?_pragma=synchronous(off)")
+	// the flavours of SQLite database a pisces store can sit on
+	var dsn string
+	switch w.flavour {
+	case "memory":
+		dsn = ":memory:" // private to the connection that created the tables; a sequential history stays on it
+	case "shared":
+		dsn = fmt.Sprintf("file:c05shared%d?mode=memory&cache=shared", w.n)
+	default:
+		dsn = filepath.Join(w.dir, fmt.Sprintf("c05-%d.db", w.n)) + "?_pragma=synchronous(off)"
+	}
+	db, err := sqlx.OpenSqlite3(dsn)
 	if err != nil {
 		return err
 	}
@@ -850,7 +860,27 @@ func short(s string) string {
 
 // runHistory executes a history from an empty world and returns the outputs
 // and the first oracle failure.
+// setFlavour makes the next reset open the kind of database asked for.
+func (w *world) setFlavour(f string) {
+	if f != "memory" && f != "shared" {
+		f = "file"
+	}
+	cur := w.flavour
+	if cur == "" {
+		cur = "file"
+	}
+	if f != cur {
+		w.flavour = f
+		w.dirty = true
+	}
+}
+
 func (w *world) runHistory(ops []string) ([]outs, *failure) {
+	want := "file"
+	if len(ops) > 0 && strings.HasPrefix(ops[0], "flavour ") {
+		want = strings.TrimSpace(strings.TrimPrefix(ops[0], "flavour "))
+	}
+	w.setFlavour(want)
 	w.reset()
 	res := make([]outs, len(ops))
 	var first *failure
@@ -1356,7 +1386,18 @@ func main() {
 			if i%10 == 0 {
 				n = nops * 3
 			}
-			r.history(g.history(store, n), fmt.Sprintf("seed %d history %d", f.Seed, i))
+			h := g.history(store, n)
+			switch i % 8 {
+			case 5:
+				h = append([]string{"flavour memory"}, h...)
+				rp.Count("flavour:memory")
+			case 6:
+				h = append([]string{"flavour shared"}, h...)
+				rp.Count("flavour:shared-cache")
+			default:
+				rp.Count("flavour:file")
+			}
+			r.history(h, fmt.Sprintf("seed %d history %d", f.Seed, i))
 			rp.Count("histories")
 			if r.stop {
 				rp.Note("stopped generating after a call on the store did not return (history %d)", i)
@@ -1378,8 +1419,10 @@ func main() {
 		}
 		for i := 0; i < rounds; i++ {
 			for _, store := range []string{"ord", "uno"} {
-				r.burst(burstCfg{"mem", store, hx.Pick(br, []int{4, 8, 16}), memKeys, br.U64() % 1000000}, "generated", 1)
-				r.burst(burstCfg{"sql", store, hx.Pick(br, []int{2, 4, 8}), sqlKeys, br.U64() % 1000000}, "generated", 1)
+				r.burst(burstCfg{"mem", store, hx.Pick(br, []int{4, 8, 16}), memKeys, br.U64() % 1000000, ""}, "generated", 1)
+				r.burst(burstCfg{"sql", store, hx.Pick(br, []int{2, 4, 8}), sqlKeys, br.U64() % 1000000, ""}, "generated", 1)
+				r.burst(burstCfg{"mem", store, hx.Pick(br, []int{4, 8}), memKeys / 4, br.U64() % 1000000, "append"}, "generated", 1)
+				r.burst(burstCfg{"sql", store, hx.Pick(br, []int{2, 3, 4}), sqlKeys * 4, br.U64() % 1000000, "append"}, "generated", 1)
 			}
 		}
 	}
